@@ -143,13 +143,16 @@ template <class SC, class DC, bool Compatible> static void run_pair(Case const& 
                     }
                     case AL_TRANSFORM2:
                     {
-                        // second source: the destination's own type, read-only copy in an image
-                        gil::image<dst_value_t, false> second(w, h);
-                        for (i64 y = 0; y < h; ++y) for (i64 x = 0; x < w; ++x) gil::view(second)(x, y) = value_from<dst_value_t>(seed ^ 77, y * w + x);
+                        // second source: the destination's own type, read-only, either a whole image (contiguous) or a window of a larger
+                        // image (rows not adjacent in memory), whatever the organisation of the first source and of the destination
+                        i64 mx = (seed >> 3) & 1 ? 1 + static_cast<i64>((seed >> 5) & 3) : 0, my = (seed >> 4) & 1;
+                        gil::image<dst_value_t, false> second(w + 2 * mx, h + 2 * my);
+                        for (i64 y = 0; y < second.height(); ++y) for (i64 x = 0; x < second.width(); ++x) gil::view(second)(x, y) = value_from<dst_value_t>(seed ^ 77, y * second.width() + x);
+                        auto s2 = gil::subimage_view(gil::const_view(second), mx, my, w, h);
                         auto f = [](auto const& p, auto const& q) { dst_value_t r(p); if (get_ch(q, 0) > (ch_lo(q, 0) + ch_hi(q, 0)) / 2) r = inverted(r); return r; };
-                        gil::transform_pixels(sv, gil::const_view(second), da, f);
-                        for (i64 y = 0; y < h; ++y) for (i64 x = 0; x < w; ++x) db(x, y) = f(sv(x, y), gil::const_view(second)(x, y));
-                        compare_buffers(ia, ib, "transform_pixels (2 sources)");
+                        gil::transform_pixels(sv, s2, da, f);
+                        for (i64 y = 0; y < h; ++y) for (i64 x = 0; x < w; ++x) db(x, y) = f(sv(x, y), s2(x, y));
+                        compare_buffers(ia, ib, mx ? "transform_pixels (2 sources, the second a window of a larger image)" : "transform_pixels (2 sources)");
                         break;
                     }
                     case AL_FOR_EACH_POS:
